@@ -2,10 +2,9 @@ package main
 
 // Pipeline.resolve (through Initialize dry run) vs. the Lean model on synthetic item sets.
 import (
-	"bufio"
+	"encoding/json"
 	"fmt"
 	"math/rand"
-	"os"
 	"sort"
 	"strconv"
 	"strings"
@@ -13,6 +12,7 @@ import (
 	"gopkg.in/src-d/go-git.v4"
 	"gopkg.in/src-d/go-git.v4/storage/memory"
 	"gopkg.in/src-d/hercules.v10/internal/core"
+	"gopkg.in/src-d/hercules.v10/verifharness/hv"
 )
 
 type it struct {
@@ -56,14 +56,114 @@ func run(specs []*it) (res string, names []string) {
 	return "ok", names
 }
 
+// validate states C10 on the outcome of the real Initialize (oracle, no model involved).
+// Reading of "runs after every other provider" (DESIGN.md, C10): item I runs after provider Q of an entity I
+// requires unless Q itself transitively requires an output of I (then Q is downstream of I, e.g. a refiner).
+func validate(specs []*it, res string, names []string) string {
+	byName := map[string]*it{}
+	providers := map[string][]*it{}
+	for _, s := range specs {
+		byName[s.name] = s
+		for _, e := range s.provides {
+			providers[e] = append(providers[e], s)
+		}
+	}
+	unsat := false
+	for _, s := range specs {
+		for _, e := range s.requires {
+			// a requirement is satisfied by a provider other than the item itself
+			ok := false
+			for _, q := range providers[e] {
+				if q != s {
+					ok = true
+				}
+			}
+			if !ok {
+				unsat = true
+			}
+		}
+	}
+	// downstream[i][q]: q transitively requires an output of i
+	down := map[*it]map[*it]bool{}
+	for _, i := range specs {
+		d := map[*it]bool{}
+		frontier := []*it{i}
+		for len(frontier) > 0 {
+			h := frontier[0]
+			frontier = frontier[1:]
+			for _, e := range h.provides {
+				for _, q := range specs {
+					if q == i || d[q] {
+						continue
+					}
+					for _, r := range q.requires {
+						if r == e {
+							d[q] = true
+							frontier = append(frontier, q)
+						}
+					}
+				}
+			}
+		}
+		down[i] = d
+	}
+	if strings.HasPrefix(res, "PANIC") {
+		return "initialization panicked: " + res
+	}
+	if strings.HasPrefix(res, "err") {
+		if strings.Contains(res, "unsatisfied") && !unsat {
+			return "reported an unsatisfied dependency although every requirement has a provider"
+		}
+		if !strings.Contains(res, "unsatisfied") && !unsat {
+			// must be cyclic: some item is downstream of itself through another item
+			cyclic := false
+			for _, i := range specs {
+				for q := range down[i] {
+					if down[q][i] {
+						cyclic = true
+					}
+				}
+			}
+			if !cyclic {
+				return "failed (" + res + ") although the requirements are satisfiable and acyclic"
+			}
+		}
+		return ""
+	}
+	if unsat {
+		return "initialization succeeded although a requirement has no provider"
+	}
+	if len(names) != len(specs) {
+		return fmt.Sprintf("%d items resolved out of %d", len(names), len(specs))
+	}
+	pos := map[string]int{}
+	for i, n := range names {
+		if _, dup := pos[n]; dup {
+			return "item " + n + " appears twice"
+		}
+		if byName[n] == nil {
+			return "unknown item " + n
+		}
+		pos[n] = i
+	}
+	for _, i := range specs {
+		for _, e := range i.requires {
+			for _, q := range providers[e] {
+				if q == i || down[i][q] {
+					continue
+				}
+				if pos[q.name] > pos[i.name] {
+					return fmt.Sprintf("%s runs before %s, which provides its input %s", i.name, q.name, e)
+				}
+			}
+		}
+	}
+	return ""
+}
+
 func main() {
-	seed, _ := strconv.ParseInt(os.Args[1], 10, 64)
-	count, _ := strconv.Atoi(os.Args[2])
-	ops, _ := os.Create(os.Args[3])
-	impl, _ := os.Create(os.Args[4])
-	wo, wi := bufio.NewWriter(ops), bufio.NewWriter(impl)
-	defer wo.Flush()
-	defer wi.Flush()
+	seed, count, wo, wi, _, done := hv.Args()
+	defer done()
 	stats := map[string]int{}
 	for k := 0; k < count; k++ {
 		rng := rand.New(rand.NewSource(seed + int64(k)))
@@ -72,7 +172,8 @@ func main() {
 		pool := []string{"Alpha", "beta", "Gamma", "delta", "Eps", "zeta", "Eta", "theta", "Iota"}
 		rng.Shuffle(len(pool), func(i, j int) { pool[i], pool[j] = pool[j], pool[i] })
 		ents := []string{"a", "B", "c", "D", "e", "F"}
-		ambiguousOK := rng.Intn(5) == 0
+		shape := rng.Intn(6) // 0: duplicated providers at will, 1: base + refiner, else at most one provider per entity
+		ambiguousOK := shape == 0
 		provided := map[string]int{}
 		var specs []*it
 		for i := 0; i < n; i++ {
@@ -91,6 +192,21 @@ func main() {
 				if (provided[e] > 0 && r < 3) || r == 0 {
 					s.requires = append(s.requires, e)
 				}
+			}
+		}
+		if shape == 1 {
+			// the TreeDiff/RenameAnalysis shape: one more item requires and provides an entity that has a provider
+			var cand []string
+			for e, c := range provided {
+				if c == 1 {
+					cand = append(cand, e)
+				}
+			}
+			sort.Strings(cand)
+			if len(cand) > 0 && n < len(pool) {
+				e := cand[rng.Intn(len(cand))]
+				specs = append(specs, &it{name: pool[n], provides: []string{e}, requires: []string{e}})
+				provided[e]++
 			}
 		}
 		amb := false
@@ -136,6 +252,47 @@ func main() {
 			parts = append(parts, fmt.Sprintf("%d:%s:%s", id[s.name], strings.Join(ps, ","), strings.Join(rs, ",")))
 		}
 		res, names := run(specs)
+		if what := validate(specs, res, names); what != "" {
+			var d []map[string]interface{}
+			for _, sp := range specs {
+				d = append(d, map[string]interface{}{"name": sp.name, "provides": sp.provides, "requires": sp.requires})
+			}
+			js, _ := json.Marshal(map[string]interface{}{"items": d})
+			class := "resolve-order"
+			// decidable class of the known finding D8: some entity has two or more providers and the set is not the
+			// simple base+refiner shape (every such entity has exactly two providers, exactly one of which also
+			// requires it, and no item takes part in two such pairs) - the shape of the built-in items
+			multi := map[string][]*it{}
+			for _, sp := range specs {
+				for _, e := range sp.provides {
+					multi[e] = append(multi[e], sp)
+				}
+			}
+			involved := map[*it]int{}
+			for e, ps := range multi {
+				if len(ps) < 2 {
+					continue
+				}
+				refiners := 0
+				for _, q := range ps {
+					involved[q]++
+					for _, r := range q.requires {
+						if r == e {
+							refiners++
+						}
+					}
+				}
+				if !(len(ps) == 2 && refiners == 1) {
+					class = "duplicated-providers-general"
+				}
+			}
+			for _, c := range involved {
+				if c > 1 {
+					class = "duplicated-providers-general"
+				}
+			}
+			hv.Fail(class, string(js), what)
+		}
 		if amb {
 			// information only: is the real result stable over map orders?
 			stable := true
@@ -147,11 +304,6 @@ func main() {
 			}
 			if strings.HasPrefix(res, "PANIC") {
 				stats["ambiguous-PANIC"]++
-				if stats["ambiguous-PANIC"] <= 2 {
-					for _, s := range specs {
-						fmt.Fprintf(os.Stderr, "WITNESS %s provides=%v requires=%v\n", s.name, s.provides, s.requires)
-					}
-				}
 			} else if stable {
 				stats["ambiguous-stable"]++
 			} else {
@@ -171,5 +323,5 @@ func main() {
 		}
 		stats[strings.SplitN(res, " ", 3)[0]+" "+strings.TrimPrefix(res, "err ")]++
 	}
-	fmt.Fprintln(os.Stderr, stats)
+	hv.Stats(stats)
 }
